@@ -23,7 +23,7 @@ let call_of = function
 
 exception Mismatch of string * string
 
-let visible = function GEmNew _ | GAdded _ | GRemoved _ | GRemovedW _ | GRemovedAll | GSnap _ -> false | _ -> true
+let visible = function GEmNew _ | GAdded _ | GRemoved _ | GRemovedW _ | GRemovedAll | GSnap _ | GUnsched _ -> false | _ -> true
 
 let rec take n l = if n <= 0 then [] else match l with [] -> [] | x :: r -> x :: take (n - 1) r
 
